@@ -50,7 +50,7 @@ META = {
         'engine': 'E-process', 'level': 'exploration', 'design_ref': 'DESIGN.md section 4 (C15)',
         'technique': 'deterministic simulation of the converter as fresh processes under seeded hash seeds (the uncontrolled ordering the property names), decoded proofs compared with an independent Appendix-B codec',
         'text': 'Generated databases with 0-5 mandatory variables declared in an order different from name order, synthetic compressed proofs (seeded label lists incl. empty, step numbers on every code-length boundary up to 10^6 plus uniform samples, Z after seeded steps, seeded whitespace/line layout) are parsed and converted by the real code in fresh interpreters under 6-8 PYTHONHASHSEED values per run; Lemma.proof.labels and .applied_lemmas must equal the reference decoding under every seed. Strong for the hash-seed clause; the arithmetic clause is sampled on boundaries, not enumerated (stated in DESIGN.md).',
-        'note': 'Trusted: R4 codec written from the Metamath book. Exhaustive enumeration up to 10^6 is outside this technique and is not claimed.',
+        'note': 'Trusted: R4 codec written from the Metamath book. Exhaustive enumeration up to 10^6 is outside this technique and is not claimed; half of the runs decode one seeded block of 1000 consecutive numbers and the evidence reports how many of the 1000 blocks partitioning 1..10^6 a batch covered (coverage.covered_sets).',
     },
     'C16': {
         'engine': 'E-process', 'level': 'exploration', 'design_ref': 'DESIGN.md section 4 (C16)',
@@ -74,13 +74,13 @@ META = {
         'engine': 'E-pipeline', 'level': 'exploration', 'design_ref': 'DESIGN.md section 4 (C02)',
         'technique': 'deterministic simulation of the generator -> files -> checker pipeline (fault-free class): seeded module compositions through the real serialiser and an in-memory file system into the real checker and a reference machine',
         'text': 'Every module the toolkit accepts at construction and serialisation (shipped modules and seeded compositions of prop1-3, Quantifier, modus_ponens, exists_generalization, dynamic_inst and all public lemmas of Propositional/Tautology incl. prove_tautology, over import graphs, optimise off and on, in seeded order on one module object) must be accepted by the real checker and by R1. A Python exception during construction or serialisation counts as the toolkit refusing, not as a violation. Modules are sampled: evidence, not proof.',
-        'note': 'Trusted: R1, the harness tail, SimFS. Well-formed workload: pattern arguments are well-formed by the documented judgement, explicit instantiations legal by R3. Known findings D5/D12/D14 are reported as KNOWN-FINDING.',
+        'note': 'Trusted: R1, the harness tail, SimFS. Well-formed workload: pattern arguments are well-formed by the documented judgement, explicit instantiations legal by R3. Known findings D5/D12/D14 are reported as KNOWN-FINDING. A quarter of the runs extend the module after a serialisation (axiom, import, claim) and serialise it again; an exception while serialising is a legitimate refusal only for the lazy assertions of exists_generalization / modus_ponens.',
     },
     'C03': {
         'engine': 'E-pipeline', 'level': 'exploration', 'design_ref': 'DESIGN.md section 4 (C03)',
         'technique': 'deterministic simulation of the pipeline with an id-space exhaustion fault class: publish journal of a reference machine on the emitted files versus an independent walk over the declared module graph',
         'text': 'R1 executes the emitted files; its publish journal (axioms de-duplicated by first occurrence, claims, discharges) must equal the declaration walked independently over the import graph under one injective symbol map per triple, for both optimise settings; modules that cannot be encoded in one-byte ids (more than 256 symbols, ids above 255, over-long constraint lists, more than 256 memory slots) must be refused by the serialiser, never wrapped around.',
-        'note': 'Trusted: R1, R6 (the walk order: imported modules first, depth first), the bridge. Triples that R1 rejects are left to C02.',
+        'note': 'Trusted: R1, R6 (the walk order: imported modules first, depth first), the bridge. Triples that R1 rejects are left to C02 (their gamma and claim journals are still judged). A quarter of the runs extend the module after a serialisation and serialise it again: the publication must follow the declaration as it then stands. Symbol numbering is observed at the serialiser\'s symbol() seam.',
     },
     'C14': {
         'engine': 'E-pipeline', 'level': 'fault_enumeration', 'design_ref': 'DESIGN.md section 4 (C14)',
